@@ -38,8 +38,16 @@ func configs(prop string, thorough bool) []*Config {
 			},
 			Logins: []LoginDef{{PID: 101}, {PID: 65637}, {PID: 4194405}},
 		}
+		// ... and beyond 32 bits (a pid token is text: nothing says it fits an int32)
+		w64 := &Config{Name: "C01-pid-width-64", CutMode: 1, OIdent: true, ONoLeak: true,
+			Sess: []SessDef{
+				{ID: "1", PID: "101", Events: []auparse.AuditMessageType{tLOGIN, tEV, tDISP}},
+				{ID: "2", PID: "4294967397", Events: []auparse.AuditMessageType{tLOGIN, tEV, tDISP}}, // 101 + 2^32
+			},
+			Logins: []LoginDef{{PID: 101}, {PID: 4294967397}},
+		}
 		if !thorough {
-			return []*Config{c, w}
+			return []*Config{c, w, w64}
 		}
 		// three sessions in flight: cleanup only with the no-op cut-off (the 2-session alphabet walks every cut-off)
 		c3 := &Config{Name: "C01-3sess", CutMode: 1, OIdent: true, OIntact: true, MaxStates: 4000000,
@@ -51,7 +59,7 @@ func configs(prop string, thorough bool) []*Config {
 			},
 			Logins: []LoginDef{{PID: 101}, {PID: 102}, {PID: 103}, {PID: 104}},
 		}
-		return []*Config{c, w, c3}
+		return []*Config{c, w, w64, c3}
 	case "C02":
 		ev5 := []auparse.AuditMessageType{tLOGIN, tEV, tEV2, tDISP, tEV}
 		c := &Config{Name: "C02-2sess", CutMode: 1, OSeq: true, OIntact: true,
@@ -74,10 +82,21 @@ func configs(prop string, thorough bool) []*Config {
 			},
 			Logins: []LoginDef{{PID: 101}, {PID: 102}},
 		}
+		// record types a renderer might treat specially (terminal input from pam_tty_audit, AVC, anomaly records):
+		// they are events of the session like any other
+		tt := &Config{Name: "C02-special-record-types", CutMode: 1, OSeq: true, OIntact: true,
+			Sess: []SessDef{
+				{ID: "1", PID: "101", Events: []auparse.AuditMessageType{tLOGIN, auparse.AUDIT_TTY, auparse.AUDIT_USER_TTY, auparse.AUDIT_AVC, tDISP}},
+				{ID: "2", PID: "102", Events: []auparse.AuditMessageType{tLOGIN, auparse.AUDIT_ANOM_ABEND, tDISP}},
+			},
+			Logins: []LoginDef{{PID: 101}, {PID: 102}},
+		}
 		dup := configs("C16", false)[1]
 		dup.Name = "C02-second-login-for-a-waiting-pid"
+		evd := configs("C16", false)[2]
+		evd.Name = "C02-pid-reused-after-a-discarded-session"
 		if !thorough {
-			return []*Config{c, r, st, dup}
+			return []*Config{c, r, st, tt, dup, evd}
 		}
 		c3 := &Config{Name: "C02-3sess", CutMode: 1, OSeq: true, OIntact: true,
 			Sess: []SessDef{
@@ -87,7 +106,7 @@ func configs(prop string, thorough bool) []*Config {
 			},
 			Logins: []LoginDef{{PID: 101}, {PID: 102}, {PID: 103}},
 		}
-		return []*Config{c, r, st, dup, c3}
+		return []*Config{c, r, st, tt, dup, evd, c3}
 	case "C10":
 		// C10(a): the production JSON writer under every history of C02's alphabet:
 		// one Write per event, whole event per Write, nothing written twice.
@@ -128,7 +147,15 @@ func configs(prop string, thorough bool) []*Config {
 		// so C04 also walks the pid-reuse alphabet of C09 with its identity oracle.
 		r := configs("C09", thorough)[0]
 		r.Name, r.OSeq, r.OIntact, r.ONoLeak = "C04-late-events-under-pid-reuse", false, false, true
-		return append([]*Config{c, r}, extra...)
+		// a session whose login never comes while a login with a pid congruent to its pid modulo 2^32 does
+		w64 := &Config{Name: "C04-pid-width-64", CutMode: 1, ONoLeak: true, OSeq: true,
+			Sess: []SessDef{
+				{ID: "1", PID: "101", Events: []auparse.AuditMessageType{tLOGIN, tEV, tDISP}},
+				{ID: "2", PID: "4294967397", Events: []auparse.AuditMessageType{tLOGIN, tEV, tDISP}},
+			},
+			Logins: []LoginDef{{PID: 4294967397}, {PID: 101}},
+		}
+		return append([]*Config{c, r, w64}, extra...)
 	case "C09":
 		c := &Config{Name: "C09-reuse", CutMode: 1, OSeq: true, OIntact: true,
 			Sess: []SessDef{
@@ -181,7 +208,22 @@ func configs(prop string, thorough bool) []*Config {
 			},
 			Logins: []LoginDef{{PID: 101}, {PID: 101}, {PID: 102}, {PID: 101, SameAs: 1}}, // the last one re-delivers the first
 		}
-		return []*Config{c, w}
+		// a session that never gets its login is discarded by cleanup; its pid is then used again by a real ssh
+		// session (login line and LOGIN record in either order): the earlier, discarded session leaves nothing behind
+		ev := &Config{Name: "C16-pid-reused-after-a-discarded-session", CutMode: 2, OSeq: true, OIdent: true,
+			Sess: []SessDef{
+				{ID: "1", PID: "101", Events: []auparse.AuditMessageType{tLOGIN, tEV}},
+				{ID: "2", PID: "101", Events: ev3},
+			},
+			Logins: []LoginDef{{PID: 101}},
+			Gate: func(sp *Spec, op Op) bool {
+				if (op.K == "A" && op.I == 1) || op.K == "L" {
+					return sp.sess[0].status == sDiscarded
+				}
+				return true
+			},
+		}
+		return []*Config{c, w, ev}
 	}
 	return nil
 }
@@ -203,7 +245,7 @@ func recordTypes(all bool) []int {
 	}
 	quick := []auparse.AuditMessageType{auparse.AUDIT_USER_LOGIN, auparse.AUDIT_USER_START, auparse.AUDIT_USER_END, auparse.AUDIT_USER_AUTH,
 		auparse.AUDIT_USER_ACCT, auparse.AUDIT_CRED_ACQ, auparse.AUDIT_CRED_REFR, auparse.AUDIT_USER_LOGOUT, auparse.AUDIT_USER_CMD,
-		auparse.AUDIT_SYSCALL, auparse.AUDIT_EXECVE, auparse.AUDIT_USER_ERR, auparse.AUDIT_SERVICE_START, auparse.AUDIT_DAEMON_START, auparse.AUDIT_ANOM_LOGIN_FAILURES}
+		auparse.AUDIT_SYSCALL, auparse.AUDIT_EXECVE, auparse.AUDIT_TTY, auparse.AUDIT_USER_TTY, auparse.AUDIT_USER_ERR, auparse.AUDIT_SERVICE_START, auparse.AUDIT_DAEMON_START, auparse.AUDIT_ANOM_LOGIN_FAILURES}
 	out = out[:0]
 	for _, t := range quick {
 		out = append(out, int(t))
